@@ -2,6 +2,7 @@ import CoapVerif.Lemmas.SendQueue
 import CoapVerif.Lemmas.TimerSim
 import CoapVerif.Lemmas.SchedInv
 import CoapVerif.Lemmas.Conserve
+import CoapVerif.Lemmas.PduFixed
 /-
 C06 — the retransmission queue: every pending message is (re)transmitted on the RFC 7252 §4.2 schedule and
 ends in exactly one outcome.
@@ -984,5 +985,43 @@ pending deadline; after its first 5 events (I/O step at 2000) the wait is 4000 a
 example : ClockOk (Msg.init 0 [{ maxRtx := 1 }]) gevs ∧
     (let r := Msg.prepareCore (Msg.run (Msg.init 0 [{ maxRtx := 1 }]) (gevs.take 5))
      r.1.now = 2000 ∧ r.2 = 4000 ∧ (abs r.1.q).map (·.deadline) = [6000]) := by decide
+
+/-! ## (8) no function of the model ever modifies a node's PDU fields or its stored timeout — whole alphabet, no scope -/
+open Coap.Pdu in
+/-- **pdu_and_timeout_never_modified_step** (byte identity / `T` drawn once, at full generality): for EVERY state of the
+message layer and EVERY event of the model — the whole alphabet of `Msg.Ev`: clock moves, `coap_send` of CON or NON,
+I/O steps, ACK, RST, NON response (cancel by token), invalid code, hold, connect, disconnect; no scope condition at all
+— every node that is in the send queue or in any session's delay queue after the step carries the fields standing for
+its PDU (message id, token, type) and the stored `timeout` of a node that was in the send queue or a delay queue before
+the step, or (for a `coap_send`) of the node that call builds (`timeout = coap_calc_timeout(…, r)` for a CON, 0 for a
+NON).  `coap_insert_node`, `coap_pop_next`, the removals, `coap_wait_ack`, `coap_retransmit` (re-queue AND the move to
+the delay queue), the delay-queue drain, cancel and disconnect only ever change `t`, `retransmit_cnt` and the session
+index. -/
+theorem pdu_and_timeout_never_modified_step (l : Msg.L) (ev : Msg.Ev) : ∀ n, InL (Msg.step l ev) n →
+    (∃ n', InL l n' ∧ pduOf n = pduOf n') ∨
+    (∃ s con mid r, ev = .submit s con mid r ∧ pduOf n = pduOf (fresh l s con mid r)) :=
+  step_pdu l ev
+
+open Coap.Pdu in
+/-- **pdu_and_timeout_never_modified** (whole runs): from ANY state, after ANY event list, every node in the send queue
+or in a delay queue has the PDU fields and the stored timeout of a node of the initial state or of the node built by a
+`coap_send` of the run (`Created`: with the session parameters at that moment and that call's PRNG byte) — `T` is
+drawn ONCE per message and what is retransmitted is what was submitted. -/
+theorem pdu_and_timeout_never_modified (l : Msg.L) (evs : List Msg.Ev) : ∀ n, InL (Msg.run l evs) n →
+    (∃ n0, InL l n0 ∧ pduOf n = pduOf n0) ∨ Created l evs n :=
+  run_pdu evs l
+
+/-- witness run outside every scope of sections (6)/(7): NSTART gate, hold (the retransmission of message 1 moves its node
+to the delay queue), connect (the drain lets message 2 in), a NON, a disconnect of another session -/
+def pevs : List Msg.Ev :=
+  [.submit 0 true 1 0, .submit 0 true 2 255, .submit 1 false 9 0, .hold 0, .setNow 2000, .prepare, .connect 0,
+   .disconnect 1, .setNow 5000, .prepare]
+
+open Coap.Pdu in
+/-- … at the end message 2 (retransmitted once) is in the send queue and message 1 (`retransmit_cnt = 1`) waits in the
+delay queue; both still have the PDU fields and the timeout (T = 3000, T = 2000) of their `coap_send` -/
+example : (Msg.run (Msg.init 0 [{}, {}]) pevs).q.nodes.map pduOf = [(2, 2, true, 3000)] ∧
+    ((Msg.run (Msg.init 0 [{}, {}]) pevs).getS 0).delayq.map pduOf = [(1, 1, true, 2000)] ∧
+    ((Msg.run (Msg.init 0 [{}, {}]) pevs).getS 0).delayq.map (·.cnt) = [1] := by decide
 
 end Coap.C06
